@@ -552,14 +552,21 @@ def run(chk):
             # (that the same value puts ` noreply` on the wire is the coupling rule C01.R2b, included below)
             nk, rep = [(n, r_) for n, r_ in spec.CALL_SCRIPTS[mname] if r_][0]
             problems = []
+            vague_rows = []
             for given, dflt in ((None, True), (None, False), (True, False), (False, True)):
                 effective = dflt if given is None else given
                 outs = script_eval(prog, mname, () if effective else rep, nkeys=nk, noreply_arg=given, default_noreply=dflt, full=True)
                 rets = outs.of("ret")
                 reads = {s_.get("#nread", 0) for s_, v, t in rets} | {1 for s_, e, t in outs.of("exc") if s_.get("#overread", 0)}
                 want_reads = {0} if effective else {len(rep)}
+                if (not rets or reads != want_reads) and any(s_.get("#imprecise", 0) for s_, v, t in rets + outs.of("exc")):
+                    vague_rows.append("with noreply=%r and default_noreply=%r (a path on which the analysis guessed)" % (given, dflt))
+                    continue
                 if not rets or reads != want_reads:
                     problems.append("with noreply=%r and default_noreply=%r the call %s (expected: %s)" % (given, dflt, "reads %s reply item(s)" % sorted(reads) if rets else "does not return", "no reply is awaited" if effective else "the %d reply item(s) are read" % len(rep)))
+            if vague_rows and not problems:
+                r4.undecided("Client.%s:noreply-resolution" % mname, "Client.%s: %s" % (mname, "; ".join(vague_rows[:2])))
+                continue
             r4.expect(not problems, "Client.%s: noreply=None means self.default_noreply, an explicit noreply wins" % mname, "Client.%s:noreply-resolution" % mname, "Client.%s: %s" % (mname, "; ".join(problems)), fn=f, node=f.node)
     # ------------------------------------------------------------------ R5 error replies are raised, for every reply line
     r5 = chk.rule("C05.R5", "error replies: ERROR / CLIENT_ERROR / SERVER_ERROR lines raise the documented exception, and every reply line read by an exchange passes that test before it is interpreted")
